@@ -274,6 +274,22 @@ def decSctList (bs : Bytes) : Option (List Bytes × Bytes) := do
   let scts ← splitAll decSerializedSCT (body.length + 1) body
   pure (scts, rest)
 
+/-- §3.3, "the contents of the ASN.1 OCTET STRING embedded in the certificate extension": one `SignedCertificateTimestampList` and
+nothing after it, each `SerializedSCT` of which is one `SignedCertificateTimestamp` and nothing after it. -/
+def wholeSct (b : Bytes) : Option SCT :=
+  match decSct b with
+  | some (s, []) => some s
+  | _ => none
+
+def decEmbeddedSctList (bs : Bytes) : Option (List SCT) :=
+  match decSctList bs with
+  | some (items, []) => items.mapM wholeSct
+  | _ => none
+
+def embeddedSctList (scts : List SCT) : Option Bytes := do
+  let items ← scts.mapM sct
+  sctList items
+
 /-! ## RFC 6962 §3.4: Merkle tree leaves
 
 ```
